@@ -416,10 +416,14 @@ func (c *ctl) build() {
 		c.addOut("out", intReader(out), func() int { return len(out) })
 	case cfg.Kind == "Seq":
 		var out <-chan int
+		xs := append([]int{}, cfg.Inputs[0]...)
 		if cfg.Forked {
-			out = fork.Seq(cfg.Inputs[0]...)
+			out = fork.Seq(xs...)
 		} else {
-			out = pipe.Seq(cfg.Inputs[0]...)
+			out = pipe.Seq(xs...)
+		}
+		for i := range xs { // the caller goes on using its slice: the channel holds what was passed in
+			xs[i] = -1
 		}
 		c.addOut("out", intReader(out), func() int { return len(out) })
 	case cfg.Kind == "ToSeq":
